@@ -34,6 +34,9 @@ def run(ctx, intensify=False):
     per = ctx.n(6, 120) * (2 if intensify else 1)
     shards = [(ctx.seed * 1000 + i, per, ORACLES, GENKW, True) for i in range(ctx.nproc)]
     tot = syscases.merge(ctx.pmap(syscases.run_shard, shards))
+    cvs, cn = syscases.run_corpus(PROP, ORACLES)
+    tot["violations"] = cvs + tot["violations"]
+    tot["oracle_evals"] += cn
     return build_result(tot, "random well-formed systems (1-4 usage patterns sharing journeys, jobs, servers, networks, "
                              "countries; step durations 0..2.5 h, request durations sub-second..3.2 h, job multiplicities "
                              "up to 4; random units, zones and start dates); distinct = distinct spec hash, non-trivial "
